@@ -782,27 +782,29 @@ Proof.
     + apply Z.leb_le. exact Hlb.
     + intros Heq. unfold fa. f_equal. destruct (size_hi sz <=? 2) eqn:E; cbn [negb]; lia.
     + intros Hv. apply (var_flag sz); [exact Hva | lia | exact Hv].
-  - (* outside the root of an extensible SIZE, fewer than 16K octets *)
-    cbn [orb] in Hsx. apply andb_prop in Hsx. destruct Hsx as [H Hn].
-    apply andb_prop in H. destruct H as [H Hout]. apply andb_prop in H. destruct H as [Hx Hop].
+  - (* outside the root of an extensible SIZE: align, then the fragmented count *)
+    cbn [orb] in Hsx.
+    apply andb_prop in Hsx. destruct Hsx as [H Hout]. apply andb_prop in H. destruct H as [Hx Hop].
     replace (size_ext sz) with (sz_ext sz) by (destruct sz; reflexivity). rewrite Hx.
     rewrite size_in_root_eq by (try assumption; destruct sz; exact Hx).
     apply negb_true_iff in Hout. rewrite Hout.
-    rewrite enc_len_single_eq by lia. destruct (Z.of_nat (length bytes) <? 16384) eqn:E; [|discriminate].
     unfold rser, astring_fields. rewrite map_length, Hout, Hx. cbn [bind].
-    pose proof (refines_bind_ok _ _ _ _ (refines_emit [true])
-                  (refines_bind_ok _ _ _ _ refines_align
-                     (refines_bind_ok _ _ _ _ (refines_lift (Ok (len_short (Z.of_nat (length bytes)))))
-                                      (refines_emit (bytes_to_bits bytes))))) as Hb.
+    pose proof (frag_refines (fun b => pemit (to_bits 8 b)) (fun b => Ok (pconst (to_bits 8 b))) 8 bytes
+                  ltac:(intros; apply refines_emit)) as Hf.
+    rewrite map_result_ok in Hf. cbn [bind] in Hf.
+    assert (Hu : Z.of_nat (length bytes) < 16384 \/
+                 (forall ps, Ok (map (fun x : Z => pconst (to_bits 8 x)) bytes) = Ok ps -> uniform 8 ps)).
+    { right. intros ps Hps.
+      assert (Hps' : ps = map (fun x : Z => pconst (to_bits 8 x)) bytes) by congruence. subst ps. clear Hps.
+      intros p Hp pos. apply in_map_iff in Hp.
+      destruct Hp as (b & <- & _). unfold pconst. apply to_bits_length. }
+    pose proof (refines_bind_ok _ _ _ _ (refines_emit [true]) (Hf Hu)) as Hb.
     eapply refines_ext; [|exact Hb].
     rewrite ser_cons. apply pcat_ext; [apply peq_refl|].
-    eapply peq_trans; [|apply peq_sym, ser_one]. cbn [aser]. unfold acount_unbounded.
-    rewrite !map_length, map_map. cbn [afrag]. rewrite !map_length, E.
-    cbn [bind]. eapply peq_trans; [apply peq_sym, pcat_assoc|]. apply pcat_ext; [apply peq_refl|].
-    intros pos. cbn [map pconcat aser].
-    rewrite (pconcat_ext _ (map pconst (map (to_bits 8) bytes))).
-    + rewrite (pconcat_const _ pos). unfold pconst. rewrite concat_octets. reflexivity.
-    + rewrite map_map. clear. induction bytes as [|b l IH]; cbn [map]; constructor; [apply pcat_nil_r | exact IH].
+    eapply peq_trans; [|apply peq_sym, ser_one]. cbn [aser].
+    apply acount_unbounded_ext. rewrite !map_map.
+    clear. induction bytes as [|b l IH]; cbn [map]; constructor; [|exact IH].
+    cbn [pconcat aser]. apply peq_sym, pcat_nil_r.
 Qed.
 
 (** ** UTF8String and OBJECT IDENTIFIER: aligned, then as in the unaligned variant *)
@@ -1535,9 +1537,9 @@ Section ACompositeRefine3.
   Hypothesis HT : forall t v, scopeT t v = true -> refines (encT t v) (rser pe (recF t v)).
 
   (** *** 20 SEQUENCE OF *)
-  (** in the root (an unbounded count: fewer than 16K elements, the
-      implementation does not re-align the later fragment headers), or
-      outside the root of an extensible SIZE with fewer than 16K elements *)
+  (** in the root, or outside the root of an extensible SIZE; where the count
+      is fragmented (unbounded, or outside the root): fewer than 16K elements,
+      because the implementation does not re-align the later fragment headers *)
   Definition aseqof_size_scope (sz : size) (n : Z) : bool :=
     (0 <=? sz_lb sz) &&
     ((size_root_scope sz n && (negb (size_unbound sz) || (n <? 16384)))
@@ -1631,7 +1633,7 @@ Section ACompositeRefine3.
       assert (Hfin : forall m, refines m (let* items := map_result (recF elem) vs in
                                           Ok (serialise_aligned pe [ACounted (sz_lb sz) (sz_ub sz) items])) ->
                      refines (if size_ext sz then if size_in_root sz n then pemit [false] ;; m
-                                                  else pemit [true] ;; palign_e ;; plift (enc_len_single n) ;; p_all (encT elem) vs
+                                                  else pemit [true] ;; palign_e ;; p_frag (frag_fuel vs) (encT elem) vs
                               else m)
                              (rser pe (let* items := map_result (recF elem) vs in asized sz items))).
       { intros m Hm. unfold rser, asized.
@@ -1655,20 +1657,21 @@ Section ACompositeRefine3.
       replace (size_ext sz) with (sz_ext sz) by (destruct sz; reflexivity). rewrite Hx.
       rewrite size_in_root_eq by (try assumption; destruct sz; exact Hx).
       apply negb_true_iff in Hout. fold n. rewrite Hout.
-      rewrite enc_len_single_eq by (unfold n; lia). rewrite Hn.
-      pose proof (refines_bind _ _ _ _ (refines_emit [true])
-                    (refines_bind _ _ _ _ refines_align
-                       (refines_bind _ _ _ _ (refines_lift (Ok (len_short n))) Hall))) as Hb.
+      pose proof (frag_refines (encT elem) (fun x => rser pe (recF elem x)) 0 vs Hg ltac:(left; unfold n in Hn; lia)) as Hf.
+      pose proof (refines_bind _ _ _ _ (refines_emit [true]) Hf) as Hb.
       intros st. rewrite Hb. unfold rser, asized.
+      assert (Hm : map_result (fun x => let* fs := recF elem x in Ok (serialise_aligned pe fs)) vs
+                   = (let* items := map_result (recF elem) vs in Ok (map (serialise_aligned pe) items))).
+      { clear. induction vs as [|x l IH]; [reflexivity|]. cbn [map_result]. rewrite IH.
+        destruct (recF elem x); cbn [bind]; [|reflexivity]. destruct (map_result (recF elem) l); reflexivity. }
+      rewrite Hm.
       destruct (map_result (recF elem) vs) as [items|e] eqn:Ei; cbn [bind]; [|reflexivity].
       rewrite (map_result_length _ _ _ Ei). fold n. rewrite Hout, Hx. cbn [bind].
       do 2 f_equal. generalize (fst st).
-      change (peq (pcat (pconst [true]) (pcat pad (pcat (pconst (len_short n)) (pconcat (map (serialise_aligned pe) items)))))
+      change (peq (pcat (pconst [true]) (acount_unbounded (map (serialise_aligned pe) items)))
                   (serialise_aligned pe [ABit true; ACounted 0 None items])).
       rewrite ser_cons. apply pcat_ext; [apply peq_refl|].
-      eapply peq_trans; [|apply peq_sym, ser_one]. cbn [aser]. unfold acount_unbounded. cbn [afrag].
-      rewrite map_length, (map_result_length _ _ _ Ei). fold n. rewrite Hn.
-      eapply peq_trans; [apply peq_sym, pcat_assoc|]. apply peq_refl.
+      eapply peq_trans; [|apply peq_sym, ser_one]. cbn [aser]. apply peq_refl.
   Qed.
 
   (** *** 23 CHOICE *)
